@@ -66,3 +66,14 @@ Example C16_repaired_on_witnesses :
   wf_b (run false false (init_cat 1 true) overlap_witness) = false /\
   wf_b (run false false (init_cat 1 true) dangling_witness) = false.
 Proof. vm_compute. repeat split. Qed.
+
+(* a group for an instant at the very beginning of the time domain starts before -2^63 ns; persisting the catalogue as int64
+   nanoseconds wraps that start around: after a snapshot/restore the group ends before it starts (no switch repairs this) *)
+Definition restore_witness : list cmd :=
+  [CreateNode 1 1; CreateDb 1 1 0 (7 * DAY); CreateMst 1 1 1; CreateSg 1 1 MINNANO 0; Restore].
+
+Theorem C16_restore_wraps_refuted :
+  forall clip cleardef, wf_b (run clip cleardef (init_cat 1 true) (removelast restore_witness)) = true /\
+                        wf_b (run clip cleardef (init_cat 1 true) restore_witness) = false.
+Proof. intros [|] [|]; vm_compute; split; reflexivity. Qed.
+Print Assumptions C16_restore_wraps_refuted.
